@@ -211,6 +211,77 @@ CHECKS.update({
     design="6/C10"),
 })
 
+CHECKS.update({
+ "C02": dict(
+    text="Coq theorems over the model of the log, flush and InitStorage: do = redo (replaying a successful statement's records "
+         "on an equivalent store reproduces its effect, through leaf/internal splits and root moves), records older than the "
+         "data file are inert (skipped by the page-LSN test or tolerated as key-exists), hence for every history of statements, "
+         "flushes at any subset of boundaries, crashes, crashes inside log appends and in-place torn flushes, recovery restores "
+         "a store with the same pages and the same tables (C02_recovery_restores), is idempotent, never fails, keeps every key "
+         "<= lastKey and every page LSN < nextLSN, and later statements behave as on the uncrashed database. Correspondence: "
+         "histories under three flush policies with crashes at statement boundaries, double recoveries; after every crash and "
+         "every later statement all tables and all pages compared with the model, tables judged by the specification.",
+    note="Hypotheses: H1 a statement that returns an error changed no page (violated exactly by the recorded findings F11a-c, "
+         "which belong to C14); H2 at each root move the sys_pages row found by name is the first live row holding the old "
+         "offset (holds whenever live catalog rows have distinct offsets; the engine now refuses DML on the catalog). The "
+         "unrestricted statement stays a Definition; C02_needs_atomicity shows it false without H1. Two defects found by the "
+         "proof attempt were repaired in /repo (c7d1b36, fd49896). No axioms.",
+    technique="Coq proof (do=redo, inert old records, invariant over event histories) + crash-at-boundary correspondence",
+    design="6/C02"),
+ "C03": dict(
+    text="Coq theorems: a log cut at any write call (at the last write or at the last fsync) reads back as a complete-record "
+         "prefix (byte-level, from the WAL codec proofs); after a crash inside a statement's log append recovery yields the "
+         "state after the first i row operations of the statement, i monotone in the cut position, with the catalog already "
+         "repaired when the cut separates a root-splitting insert from its root-move record; later statements continue "
+         "correctly. Correspondence: every write/sync call of every DML statement of seeded histories is a crash point under "
+         "both cut rules (~1250 crash states per quick run): recover, read, run further statements, crash and recover again.",
+    note="Same hypotheses H1/H2 as C02. In the half-pair cut the recovered store differs from the i-row store only in the LSN "
+         "stamped on one sys_pages leaf (stated as seqL). Assumes a write call on the O_APPEND log is atomic and fsync durable. "
+         "No axioms.",
+    technique="Coq proof (reader prefix + prefix-state theorem) + crash-inside-log-append enumeration",
+    design="6/C03"),
+ "C04": dict(
+    text="Coq theorems: for every reachable state and every subset W of its dirty pages, if cache and file differ only inside "
+         "leaves (torn_disk y W = Some d), recovery from the torn image restores the same pages and tables, keeps keys <= "
+         "lastKey, and a second crash inside recovery's own flush is again a single torn flush (C04_partial, "
+         "C04_ids_after_torn_flush, C04_second_crash). The unrestricted statement is not provable: a flush with a page "
+         "allocated or an internal node dirtied since the last completed flush is outside the model (C04_refuted exhibits such "
+         "a reachable state) and is the recorded finding F15. Correspondence: at every flush point the driver builds every torn "
+         "image (file before + any subset of changed pages, header unwritten), recovers it in a child process, reads back and "
+         "runs further INSERTs.",
+    note="PARTIAL by the recorded finding F15 (structural torn flushes: 207 of 370 such images do not recover in a quick run, "
+         "printed as KNOWN-FINDING; in-scope images must all recover). One defect found by the proof attempt (stale lastKey "
+         "after an in-place torn flush) was repaired (fd49896). Assumes a 4096-byte WriteAt is atomic. No axioms.",
+    technique="Coq proof (per-page redo argument for in-place dirty sets) + torn-image enumeration",
+    design="6/C04"),
+ "C17": dict(
+    text="Coq theorems over the session model (CREATE DATABASE / USE / SHOW DATABASES / statements / timer ticks / clean and "
+         "unclean restarts): every database's logical store represents exactly the specification of the statements issued "
+         "while it was selected (C17_isolation, by induction over event lists, building on the C01 refinement invariant and "
+         "the C02 recovery theorem); failed USE / CREATE DATABASE change nothing; SHOW lists exactly the created names; a "
+         "statement, tick or USE touches only the selected (and newly selected) database. Correspondence: one engine.Session "
+         "with the real 100 ms timer over 2-3 databases, pauses and restarts, contents read after every step.",
+    note="Hypotheses as in C01/C02 (failing statements fail early - F11a-c excluded; distinct column names; H2). Database names "
+         "are ASCII identifiers (a delimited identifier with '/' creates nested directories: outside the generated inputs). "
+         "No axioms.",
+    technique="Coq proof (session invariant over event lists) + multi-database session correspondence",
+    design="6/C17"),
+ "C18": dict(
+    text="Coq theorems: the SELECT executor model never reaches a Panic branch for any statement the parser can produce over any "
+         "well-formed tables, NULLs and ill-typed comparisons included (C18_select_no_panic; every Go type assertion and index "
+         "is a Panic branch of the model); in every reachable session state DELETE, SELECT, CREATE DATABASE, USE and SHOW never "
+         "panic, CREATE TABLE / INSERT / UPDATE never panic under the size/literal side conditions (C18_statement_no_panic_"
+         "partial); with no database selected every statement returns the NoDB error and after a failed USE the session is "
+         "unchanged. Correspondence: type-confused statements from the grammar plus a list of awkward texts in the session "
+         "states {no USE, failed USE, empty database, populated with NULLs} under recover() and a watchdog; SELECT outcomes "
+         "against the executor model.",
+    note="PARTIAL: the unconditional statement for CREATE TABLE / INSERT / UPDATE stays a Definition (the proof carries the "
+         "refinement invariant, which needs distinct column names and file size bounds). Three panics found earlier were "
+         "repaired (avg on NULL, ORDER BY on NULL, DML on the catalog). No axioms.",
+    technique="Coq proof (no Panic branch reachable) + type-confused statement correspondence in all session states",
+    design="6/C18"),
+})
+
 NOT_YET = {
 }
 
